@@ -269,3 +269,26 @@ Definition chk_explode_default (h : hist Qc) (lim : option rawlimit) (infv : opt
   cres_code cnt_eqb
     (explode VO Vzero vadd FUEL h default_pred lim qzero
              (fun o => match infv with Some v => Some (v * o)%Qc | None => None end)) expected.
+
+(* ---- C10 / C11: scripted random choices ---- *)
+From Dyce Require Export Model.Roller.
+Definition asks_eqb (a b : list (list Qc * list Z)) : bool :=
+  list_eqb (pair_eqb (list_eqb Veqb) (list_eqb Z.eqb)) a b.
+Definition opt_eqb {A} (e : A -> A -> bool) (a b : option A) : bool :=
+  match a, b with Some x, Some y => e x y | None, None => true | _, _ => false end.
+Definition chk_run {A} (e : A -> A -> bool) (t : tree (T:=Qc) A) (script : list nat)
+           (exp_asks : list (list Qc * list Z)) (expected : res A) : bool :=
+  let '(asks, r) := run t script in
+  asks_eqb asks exp_asks && match r with Some x => res_eqb e x expected | None => false end.
+Definition chk_h_roll (h : hist Qc) script asks (expected : res Qc) : bool :=
+  chk_run Veqb (h_roll Vzero h) script asks expected.
+Definition chk_p_roll (dice : list (hist Qc)) script asks (expected : res (list Qc)) : bool :=
+  chk_run (list_eqb Veqb) (p_roll VO Vzero (mkP VO dice)) script asks expected.
+Definition rtreeQ := rtree (T:=Qc).
+Definition chk_roll (r : rtreeQ) script asks (expected : res (list (option Qc))) : bool :=
+  chk_run (list_eqb (opt_eqb Veqb)) (roll_v VO Vzero Vadd r) script asks expected.
+Definition p_even (v : Qc) : bool := is_int v && Z.even (numz v).
+Definition p_odd (v : Qc) : bool := is_int v && Z.odd (numz v).
+Definition p_gt (c : Qc) (v : Qc) : bool := negb (Vleb v c).
+Definition expand_tbl (tbl : list (Qc * expansion (T:=Qc))) (v : Qc) : expansion (T:=Qc) :=
+  match find (fun e => Veqb (fst e) v) tbl with Some e => snd e | None => EKeep end.
